@@ -73,3 +73,18 @@ Example C07_nonvacuous :
   (match program_accessor "R" ex_r (i "R") (v "R") 2 with
    | Some (SArr a) => a_dims a = [3; 2; 0] | _ => False end).
 Proof. vm_compute. repeat split; reflexivity. Qed.
+
+(* the block taken by `slice_slowest` IS the subscript range of the slowest axis: row-major
+   v[lo:hi][j, idx] = v[lo+j, idx]; column-major v(idx, lo+1:hi)(idx, j) = v(idx, lo+j) *)
+Theorem C07_range_row : forall t n inner_ flat lo hi j idx,
+  0 <= lo -> hi <= n -> 0 <= j < hi - lo -> in_range inner_ idx = true ->
+  aget (slice_slowest (mkA t (n :: inner_) RowMajor flat) lo hi) (j :: idx)
+  = aget (mkA t (n :: inner_) RowMajor flat) (lo + j :: idx).
+Proof. exact slice_slowest_row. Qed.
+Print Assumptions C07_range_row.
+Theorem C07_range_col : forall t n inner_ flat lo hi j idx,
+  0 <= lo -> hi <= n -> 0 <= j < hi - lo -> in_range inner_ idx = true ->
+  aget (slice_slowest (mkA t (inner_ ++ [n])%list ColMajor flat) lo hi) (idx ++ [j])%list
+  = aget (mkA t (inner_ ++ [n])%list ColMajor flat) (idx ++ [lo + j])%list.
+Proof. exact slice_slowest_col. Qed.
+Print Assumptions C07_range_col.
